@@ -322,6 +322,13 @@ def check_C02(tier, seed):
     ]
     n = size(tier, 12000, 400000)
     bc_leg(o, "all-paths", n, seed)
+    # the call templates (every arity up to 4, then 16, 254 and 255 arguments; bodies that end in every way a body can
+    # end) on the real machine: the code verified on all paths, the verifier's effect table bound to the recorded
+    # dispatches, probe faults, and the frame discipline of every Call / Return
+    wd = core.workdir("C02_templates")
+    tfiles = gen_files(wd, "gen-templates", ["--set", "calls", "--steps", 3000], core.NCPU, "t")
+    residue_leg(o, "call-templates-all-paths-and-binding", tfiles, wd, keep_steps=True, residue_is_violation=False)
+    frames_files_leg(o, "call-templates-discipline", tfiles, wd)
     o.extra["exhaustive"] = True
     o.extra["rule"] = ("per compiled program the abstract machine (region, ip, height) is explored completely "
                        "(all paths, both branches of every conditional jump); programs are generated ones, "
@@ -638,15 +645,17 @@ def sem_and_frames(o, name, gen_args, n, seed, steps=4000, gen_cmd="gen-sem"):
     return files, wd
 
 
-def residue_leg(o, name, files, wd):
-    """NlBcSafe on the bytecode of the given records, residue classes counted as violations"""
+def residue_leg(o, name, files, wd, keep_steps=False, residue_is_violation=True):
+    """NlBcSafe on the bytecode of the given records (with keep_steps also its binding to the recorded dispatches and
+    the probe faults of the run); residue classes counted as violations unless told otherwise"""
     t0 = time.time()
     optab = optab_file(wd)
     ff = []
     for f in files:
         recs = [r for r in core.read_ndjson(f) if r.get("bc")]
-        for r in recs:
-            r.pop("steps", None)
+        if not keep_steps:
+            for r in recs:
+                r.pop("steps", None)
         g = f + ".bc"
         core.write_ndjson(g, recs)
         if recs:
@@ -663,7 +672,7 @@ def residue_leg(o, name, files, wd):
             key = v["class"] + ":" + v["rule"]
             counts[key] = counts.get(key, 0) + 1
             o.traces += 1
-            if v["class"] in ("mismatch", "residue"):
+            if v["class"] == "mismatch" or (v["class"] == "residue" and residue_is_violation):
                 rec = recs[v["id"]]
                 text = srcs.get(v["id"], "")
                 sig = sig_of(name, v, rec, text)
@@ -671,6 +680,16 @@ def residue_leg(o, name, files, wd):
                 o.violation(sig, {"text": text, "viol": v.get("viol")[:10], "record_file": g, "id": v["id"],
                                   "spec_module": "NlBcSafe.tla", "cfg": "NlBcSafe.cfg"})
     o.legs.append({"leg": name, "records": nrec, "verdicts": counts, "wall_s": round(time.time() - t0, 1)})
+
+
+def directed_leg(o, name, xset):
+    """a hand-written complete grid of texts around one theme (harness: semfam::directed_texts), validated by TV_Sem"""
+    wd = core.workdir(f"{o.prop}_{name}")
+    files = gen_files(wd, "gen-corpus", ["--set", xset], 4, "d")
+    files = [f for f in files if os.path.getsize(f) > 0]
+    agreeing = sem_files_leg(o, name, files, wd)
+    if not agreeing:
+        raise ToolError(f"{name}: no record of the directed family was accepted by the specification")
 
 
 def check_C11(tier, seed):
@@ -685,6 +704,8 @@ def check_C11(tier, seed):
     sem_files_leg(o, "templates-values", files, wd)
     frames_files_leg(o, "templates-discipline", files, wd)
     residue_leg(o, "templates-all-paths", files, wd)
+    # the value of a loop used as an expression: every way a body can end x every use of the value x 0 / 1 / 3 iterations
+    directed_leg(o, "loop-values", "loop-values")
     # random nests
     sem_and_frames(o, "random-control", ["--family", "control"], size(tier, 1600, 40000), seed)
     # loops far past 65 536 iterations: back edges only
@@ -987,6 +1008,9 @@ def check_C13(tier, seed):
         "string identity (U2) is outside the documented language: writes into a text that came from a literal evaluated more than once are skipped",
     ]
     enum_leg(o, "index-family", "seq")
+    # sharing: every way of making a second name for an array (declaration, assignment, literal element, index
+    # assignment, parameter, result, global, loop) x every way of writing through one of the two
+    directed_leg(o, "aliases", "aliases")
     sem_leg(o, "random-seq", ["--family", "seq"], size(tier, 1600, 40000), seed)
     o.extra["exhaustive"] = True
     o.extra["rule"] = ("arrays of length 0-6 and strings of 0-6 characters from 1- to 4-byte code points x every index in -(len+2)..len+2 x "
